@@ -26,15 +26,7 @@ static runtime_state_t atomic_exchange(runtime_state_t *p, runtime_state_t v)
   return o;
 }
 
-/* compare_exchange_weak: as compare_exchange_strong, but may fail spuriously (expected is then reloaded) */
-static bool atomic_cas_weak(runtime_state_t *p, runtime_state_t *expected, runtime_state_t desired)
-{
-  if (nondet_bool()) return atomic_cas_strong(p, expected, desired);
-  interfere(p);
-  *expected = *p;
-  if (p == &g_v_state) vx_seen(*p);
-  return false;
-}
+/* compare_exchange_weak: atomic_cas_weak of state.h */
 
 /* ---- std::thread threads_[i] (environment stubs; joinable() is thread_joinable of state.h) ---- */
 static long g_spawned_v, g_spawned_o;   /* std::thread objects started for worker g_v / for other workers (saturating at 2) */
